@@ -274,7 +274,11 @@ class C07Engine(Engine):
         # ---- schedule --------------------------------------------------------------------------------
         nevents = tape.rng(60, 400)
         upgrades_left = K * n_nodes + 2
+        main_tape = tape
         for step in range(nevents):
+            tape = main_tape.fork('e%d' % step)     # one independent segment per event
+            if tape.absent:
+                continue
             k = tape.weighted([(30, 'send'), (30, 'deliver'), (10, 'store'), (12, 'load'), (12, 'upgrade'),
                                (6, 'rollback')])
             node = nodes[tape.draw(n_nodes)]
